@@ -90,6 +90,34 @@ deriving Repr, Inhabited
 
 def isSep (c : Nat) : Bool := c == c_pipe || c == c_eq
 
+/-- the section option a path component names (`cfg_getopt_leaf` + type test) -/
+def pathOpt (sec : Cfg) (secname : Bytes) : Option (Nat × Opt) :=
+  match getoptLeaf sec secname with
+  | some oi => (match sec.opts[oi]? with
+    | some o => if o.ty == .sec then some (oi, o) else none
+    | none => none)
+  | none => none
+
+/-- the qualifier after a section name (`=index`, `=title`, `='quoted title'` or nothing): the
+instance index it selects (-1: none) and the length of name plus qualifier -/
+def pathQual (o : Opt) (after : Bytes) (len : Nat) : Int × Nat :=
+  if after.head? != some c_eq then (0, len)
+  else if !o.flags.multi then (-1, len)
+  else
+    match parseTitle (after.drop 1) with
+    | none => (-1, len)      -- `len` was clobbered by parse_title; sec is NULL anyway
+    | some (t, tl) =>
+      if o.flags.title then
+        ((match gettsecidx o t with | some k => (k : Int) | none => -1), len + 1 + tl)
+      else
+        ((if (strtolC t 0).rest.isEmpty then (strtolC t 0).val else -1), len + 1 + tl)
+
+/-- instance `i` of a section option (`cfg_opt_getnsec`) -/
+def pathInst (o : Opt) (i : Int) : Option (Nat × Cfg) :=
+  if i ≥ 0 && i.toNat < o.vals.length then
+    (match o.vals[i.toNat]? with | some (.sec s) => some (i.toNat, s) | _ => none)
+  else none
+
 /-- `cfg_getopt_secidx(cfg, name, index)`; `wantIndex` = "index != NULL".  `fuel` bounds the
 number of path components.  Diagnostics are the ones issued when the start context does not have
 IGNORE_UNKNOWN (see `getoptSecidx`). -/
@@ -111,48 +139,18 @@ def secidxLoop (wantIndex : Bool) : Nat → Cfg → List (Nat × Nat) → Option
       else if len == 0 then finish
       else
         -- the do { } while(0) block
-        let oi? := getoptLeaf sec secname
-        let opt? : Option (Nat × Opt) :=
-          match oi? with
-          | some oi => (match sec.opts[oi]? with
-            | some o => if o.ty == .sec then some (oi, o) else none
-            | none => none)
-          | none => none
-        let (i, _title?, len2) : Int × Option Bytes × Nat :=
-          match opt? with
-          | none => (-1, none, len)
-          | some (_, o) =>
-            if after.head? != some c_eq then (0, none, len)
-            else if !o.flags.multi then (-1, none, len)
+        match pathOpt sec secname with
+        | none => ⟨none, -1, [.noSubSection]⟩
+        | some (oi, o) =>
+          let q := pathQual o after len
+          match pathInst o q.1 with
+          | none => ⟨none, q.1, if !o.flags.multi then [.noSuchOption] else [.noSubSection]⟩
+          | some (ii, s) =>
+            let name1 := name.drop q.2
+            let seps := (name1.takeWhile (· == c_pipe)).length
+            if wantIndex && seps > 0 && (name1.drop seps).isEmpty then ⟨none, q.1, []⟩
             else
-              match parseTitle (after.drop 1) with
-              | none => (-1, none, len)      -- `len` was clobbered by parse_title; sec is NULL anyway
-              | some (t, tl) =>
-                if o.flags.title then
-                  ((match gettsecidx o t with | some k => (k : Int) | none => -1), some t, len + 1 + tl)
-                else
-                  let r := strtolC t 0
-                  ((if r.rest.isEmpty then r.val else -1), some t, len + 1 + tl)
-        let sec'? : Option (Nat × Nat × Cfg) :=
-          match opt? with
-          | some (oi, o) =>
-            if i ≥ 0 && i.toNat < o.vals.length then
-              (match o.vals[i.toNat]? with | some (.sec s) => some (oi, i.toNat, s) | _ => none)
-            else none
-          | none => none
-        match sec'? with
-        | none =>
-          let ds : List DiagCls :=
-            match opt? with
-            | some (_, o) => if !o.flags.multi then [.noSuchOption] else [.noSubSection]
-            | none => [.noSubSection]
-          ⟨none, i, ds⟩
-        | some (oi, ii, s) =>
-          let name1 := name.drop len2
-          let seps := (name1.takeWhile (· == c_pipe)).length
-          if wantIndex && seps > 0 && (name1.drop seps).isEmpty then ⟨none, i, []⟩
-          else
-            secidxLoop wantIndex fuel s (steps ++ [(oi, ii)]) (some ⟨steps, oi⟩) i (name1.drop seps)
+              secidxLoop wantIndex fuel s (steps ++ [(oi, ii)]) (some ⟨steps, oi⟩) q.1 (name1.drop seps)
 
 /-- the resolver proper reports what it would say; whether anything is said at all is decided by
 the flags of the context the lookup started from (`cfg->flags & CFGF_IGNORE_UNKNOWN`) -/
